@@ -56,7 +56,7 @@ def polyval_mat(C, z):
     return sum(C[i] * z ** i for i in range(C.shape[0]))
 
 
-def gen_system(rng, n, Nch, Nref, tries=4000):
+def gen_system(rng, n, Nch, Nref, tries=100000):
     """Well-conditioned real polynomial matrices A (Nch x Nch), B (Nref x Nch) of order n: A_0, A_n well conditioned,
     roots of det A(z) simple, away from 0, from each other and from the unit circle (where the spectrum is sampled)."""
     sep = 0.08 if n * Nch <= 9 else 0.03
@@ -382,6 +382,13 @@ def oracle_order_column(ctx, case, tables, A, B, dt, method, nxseg, col, Nch, or
                  case, key="C05:%s:%s" % (key, "values" if dd > tol else "shapes"))
 
 
+def coef_tol(cond):
+    """Tolerance of exact recovery, scaled by the conditioning of the constrained least-squares problem: the code forms normal
+    equations, so its error is ~ eps * cond(J)^2.  Calibrated on the unchanged tree (500 draws over all shapes, 700 in the corner
+    Nref = 1, Nch 4-5, n 5-8): error <= 0.39 eps cond^2 (0.21 in the corner); 12 eps cond^2 leaves a 30x margin."""
+    return max(TOL_COEF, 12 * np.finfo(float).eps * cond * cond)
+
+
 def oracle_coefficients(ctx, case, Ad_n, Bn_n, A, B, sgn, cond, key, tol=None):
     n = A.shape[0] - 1
     fix = 0 if sgn == -1 else n
@@ -397,7 +404,7 @@ def oracle_coefficients(ctx, case, Ad_n, Bn_n, A, B, sgn, cond, key, tol=None):
         return False
     scale = max(1.0, np.abs(At).max(), np.abs(Bt).max())
     err = max(np.abs(Ad_n - At).max(), np.abs(Bn_n - Bt).max()) / scale
-    tol = TOL_COEF * max(1.0, cond * cond / 1e6) if tol is None else tol
+    tol = coef_tol(cond) if tol is None else tol
     if err > tol:
         ea = np.abs(Ad_n - At).max() / scale
         ctx.fail("oracle", "pLSCF does not reproduce the %s coefficients under the normalisation A_%s = I: error %.3g (tolerance %.1g, LS condition %.3g)"
@@ -485,6 +492,16 @@ def run(ctx):
         plan.append(dict(n=n, Nch=Nch, Nref=Nref, Nf=4 * (n + 1) if nf is None else max(nf, 4 * (n + 1)), sgn=-1 if j % 2 else 1,
                          dt=float(awkward_dt[j % len(awkward_dt)]), method="per" if j % 4 else "cor", nxseg=int(rng.choice([64, 1024])),
                          A=A, B=B, extra_order=False, oracle_only=True, src="lines"))
+    # the ill-conditioned corner of the property's range: a single reference row, 4-5 channels, orders 5-8, few lines
+    # (the reduced normal matrix has rcond 1e-8..1e-10 there and the code still recovers A to ~1e-8)
+    for n in range(5, 9):
+        for Nch in (4, 5):
+            for i in range(3):
+                for sgn in ((-1, 1) if not quick else ((-1,) if (n + Nch + i) % 2 else (1,))):
+                    A, B = gen_system(rng, n, Nch, 1)
+                    plan.append(dict(n=n, Nch=Nch, Nref=1, Nf=[4 * (n + 1), 4 * (n + 1) + 3, 64][i], sgn=sgn,
+                                     dt=float(dts[int(rng.integers(0, len(dts)))]), method="per" if (n + i) % 4 else "cor", nxseg=int(rng.choice([64, 256])),
+                                     A=A, B=B, extra_order=False, oracle_only=True, src="corner"))
     # "model orders up to ordmax >= n".  Above order n an exactly rational spectrum makes the constrained block of M exactly
     # singular: in floats its pivots are rounding noise, np.linalg.solve then raises when one of them happens to be exactly 0
     # (calibrated on the unchanged tree: 17 of 300 exact draws, 0 of 1600 with a 1e-7 relative full-rank floor).  Two streams:
@@ -529,8 +546,8 @@ def run(ctx):
         ctx.hist("Nf", Nf if Nf > 64 else "<=64")
         ctx.hist("dt", dt)
         ctx.sample(dict(case, A=A.tolist()[:1], B=B.tolist()[:1], note="first coefficient blocks only shown"))
-        if cond > 3e4:
-            ctx.not_judged += 1
+        if coef_tol(cond) > 1e-5:
+            ctx.not_judged += 1  # the unchanged code itself cannot be expected to solve this draw to 1e-5 (cond(J) > 6e4)
             continue
         ordmax = int(it.get("ordmax") or n + int(it.get("extra_order") or 0))
         stat = (it.get("src") == "above" or bool(it.get("ordmax"))) and not floor and ordmax > n
@@ -587,9 +604,18 @@ def run(ctx):
         try:
             tables = plscf.pLSCF_poles(Ad, Bn, dt, method, nxseg)
         except Exception as e:  # noqa: BLE001
+            if isinstance(e, np.linalg.LinAlgError) and ordmax > n and not floor:
+                # the coefficients of an over-specified order on exact data are rounding noise (possibly non-finite or with a
+                # singular leading block): same baseline fragility as above, judged as a rate
+                if stat:
+                    above["raised"] += 1
+                    above["first"] = above["first"] or case
+                ctx.not_judged += 1
+                continue
             ctx.fail("oracle", "pLSCF_poles raised %s on the coefficients pLSCF returned" % type(e).__name__, case, key="C05:poles:raise")
             continue
-        oracle_order_column(ctx, case, tables, A, B, dt, method, nxseg, n - 1, Nch, ordmax, "e2e", tol=max(TOL_POLE, 3 * floor * cond) if floor else None)
+        oracle_order_column(ctx, case, tables, A, B, dt, method, nxseg, n - 1, Nch, ordmax, "e2e",
+                            tol=max(TOL_POLE, 3 * floor * cond) if floor else max(TOL_POLE, coef_tol(cond)))
         if (n + 1) * Nch <= (12 if quick else 20) and not it.get("oracle_only"):
             try:
                 cols, eres = witness_columns(Ad, Bn, dt)
@@ -787,7 +813,7 @@ def class_level(ctx, rng, dts):
             Nref = B.shape[1]
             Nf = 4 * (n + 1) + 3
             Sy, _ = spectrum(A, B, Nf, sgn)
-            if ls_condition(A, B, Sy, Nf, sgn, 0 if sgn == -1 else n) > 3e4:
+            if coef_tol(ls_condition(A, B, Sy, Nf, sgn, 0 if sgn == -1 else n)) > 1e-5:
                 ctx.not_judged += 1
                 continue
             freq = np.linspace(0.0, fs / 2, Nf)
